@@ -289,7 +289,7 @@ class FnSpec:
     def __init__(self, file, qualname, args, prop, mode='int', requires=(), ensures=(), rejects=(),
                  frame=None, loops=None, callees=None, ghosts=None, ignore=(), name=None, check_fits=False,
                  allow_raise=(), hints=None, pre_hints=(), slice=None, live_in=None, post_hints=(), inline=(),
-                 name_values=()):
+                 name_values=(), blocks=()):
         self.file, self.qualname, self.args, self.prop, self.mode = file, qualname, args, prop, mode
         self.requires, self.ensures, self.rejects = list(requires), list(ensures), list(rejects)
         self.frame = frame            # list of array arg names that may be written (None = no frame check)
@@ -307,6 +307,7 @@ class FnSpec:
         self.live_in = live_in
         self.inline = list(inline)
         self.name_values = set(name_values)
+        self.blocks = list(blocks)
 
 
 # --------------------------------------------------------------------------------------------------
@@ -654,6 +655,8 @@ class Engine:
                 return v.itemsize
         if isinstance(v, Bound) and v.name == 'T' and a in ARR_METHODS:
             return Bound('T.' + a, v.obj)
+        if isinstance(v, tuple) and v and v[0] == 'linspace' and a == 'astype':
+            return Bound('astype', v)
         if isinstance(v, (list, dict, str)) and a in ('append', 'keys', 'items', 'values', 'get'):
             return getattr(v, a)
         raise Unsupported(f'attribute .{a} on {type(v).__name__}')
@@ -1355,7 +1358,24 @@ class Engine:
 
     # ---------------- statements
     def exec_block(self, stmts, states):
-        for s in stmts:
+        skip = 0
+        for k, s in enumerate(stmts):
+            if skip:
+                skip -= 1
+                continue
+            blk = self.match_block(stmts, k)
+            if blk is not None:
+                nxt = []
+                for st in states:
+                    if st.flow is not None:
+                        nxt.append(st)
+                    else:
+                        blk['apply'](self, st)
+                        nxt.append(st)
+                states = nxt
+                skip = len(blk['stmts']) - 1
+                self.note_assumed('block contract: ' + blk['note'])
+                continue
             nxt = []
             for st in states:
                 if st.flow is not None:
@@ -1367,9 +1387,27 @@ class Engine:
                 raise Unsupported('path explosion (> 4096 live paths)')
         return states
 
+    def match_block(self, stmts, k):
+        """a block contract replaces a run of statements (matched by exact normalised source text) by an assumed
+        state update written in the sidecar"""
+        for blk in self.spec.blocks:
+            first = blk['stmts'][0]
+            if norm_src(stmts[k], 400) == first:
+                got = [norm_src(x, 400) for x in stmts[k:k + len(blk['stmts'])]]
+                if got != blk['stmts']:
+                    raise ContractError('block contract no longer matches the source: ' + ' | '.join(got))
+                return blk
+        return None
+
     def exec_stmt(self, s, st):
         if self.is_ignored(s):
             return [st]
+        if self.spec.hints and not self.specmode:
+            src0 = norm_src(s, 200)
+            for pref, hs in self.spec.hints.items():
+                if src0.startswith(pref):
+                    for h in hs:
+                        self.hint(st, h, s)
         m = getattr(self, 'st_' + type(s).__name__, None)
         if m is None:
             raise Unsupported('statement ' + type(s).__name__ + ': ' + norm_src(s))
